@@ -287,12 +287,16 @@ Definition iso_parse (bs : bytes) : option pobj :=
 Definition iso_char (c : N) : bool := iregular c && negb (c =? 35).
 Definition iso_name (n : bytes) : bool := forallb iso_char n.
 Definition no_cr (s : bytes) : bool := forallb (fun c => negb (c =? 13)) s.
-Fixpoint iso_wf (v : obj) : bool :=
+(** [nok]: the names the emitter in use can carry (repaired writer: every name of bytes;
+    before the repair: ISO-regular names without '#') *)
+Fixpoint iso_wf_gen (nok : bytes -> bool) (v : obj) : bool :=
   match v with
   | OStr s => no_cr s
   | OHex s => bytes_ok s
-  | OName n => iso_name n
-  | OArr l => forallb iso_wf l
-  | ODict l => forallb (fun kv => iso_name (fst kv) && iso_wf (snd kv)) l
+  | OName n => nok n
+  | OArr l => forallb (iso_wf_gen nok) l
+  | ODict l => forallb (fun kv => nok (fst kv) && iso_wf_gen nok (snd kv)) l
   | _ => true
   end.
+Definition iso_wf : obj -> bool := iso_wf_gen bytes_ok.
+Definition iso_wf_pinned : obj -> bool := iso_wf_gen iso_name.
